@@ -3,7 +3,7 @@ Lemmas.SevmCorr — `step_corr`: every dispatch step of the symbolic core machin
 Lemmas.SevmStep) to what the reference EVM does on every related frame. One lemma per opcode class, then the
 assembly following the `if`-chain of `Model.Sevm.step`.
 -/
-import HalmosVerif.Lemmas.SevmMem
+import HalmosVerif.Lemmas.SevmSto
 
 set_option linter.unusedSectionVars false
 set_option linter.unusedSimpArgs false
@@ -31,7 +31,7 @@ theorem corr_pop (hR : R I env code p st f) (hsat : Sat I st.path) (hl : f.stack
   | cons v rest =>
     rw [hst] at hstk
     obtain ⟨n, cs, hcs, hw, hr⟩ := hstk.cons_inv
-    refine Corr.cont1 hsat rfl rfl (evm_pop (hR.hop hop) (by omega) hcs) (hR.next' rfl rfl rfl rfl rfl rfl rfl rfl rfl ?_ hr)
+    refine Corr.cont1 hsat rfl rfl (evm_pop (hR.hop hop) (by omega) hcs) (hR.next' sc! rfl rfl rfl rfl rfl ?_ hr)
     simp only [hR.pc]
 
 theorem corr_dup (hR : R I env code p st f) (hsat : Sat I st.path) (hl : f.stack.length ≤ 1024) {op : Nat} (hop : opAt code st.pc = op)
@@ -47,7 +47,7 @@ theorem corr_dup (hR : R I env code p st f) (hsat : Sat I st.path) (hl : f.stack
     exact Corr.halt rfl hstep
   · simp only [e1]
     simp only [e2] at hstep
-    refine Corr.cont1 hsat rfl rfl hstep (hR.next' rfl rfl rfl rfl rfl rfl rfl rfl rfl ?_ (StackRel.cons hw hR.stack))
+    refine Corr.cont1 hsat rfl rfl hstep (hR.next' sc! rfl rfl rfl rfl rfl ?_ (StackRel.cons hw hR.stack))
     simp only [hR.pc]
 
 theorem corr_swap (hR : R I env code p st f) (hsat : Sat I st.path) (hl : f.stack.length ≤ 1024) {op : Nat} (hop : opAt code st.pc = op)
@@ -78,7 +78,7 @@ theorem corr_swap (hR : R I env code p st f) (hsat : Sat I st.path) (hl : f.stac
       simp only [e1']
       rw [hcs] at e2
       simp only [hcs, e2] at hstep
-      refine Corr.cont1 hsat rfl rfl hstep (hR.next' rfl rfl rfl rfl rfl rfl rfl rfl rfl ?_ ?_)
+      refine Corr.cont1 hsat rfl rfl hstep (hR.next' sc! rfl rfl rfl rfl rfl ?_ ?_)
       · simp only [hR.pc]
       · simp only [← hst, ← hcs]
         exact (hstk.set 0 hwb).set (op - 0x8f) hwa
@@ -120,7 +120,7 @@ theorem corr_calldataload (hs : SimpSound s) (hR : R I env code p st f) (hsat : 
   simp only [Evm.op1, hcs] at hstep
   obtain ⟨cwf, cw, ce⟩ := hR.env.cd off
   obtain ⟨lwf, le⟩ := loaded_ok hR.subst hsat cwf
-  refine Corr.cont1 hsat rfl rfl hstep (hR.next' rfl rfl rfl rfl rfl rfl rfl rfl rfl ?_ (StackRel.cons ?_ hr))
+  refine Corr.cont1 hsat rfl rfl hstep (hR.next' sc! rfl rfl rfl rfl rfl ?_ (StackRel.cons ?_ hr))
   · simp only [hR.pc]
   · exact wordRel_mkBV hs lwf (by rw [le, ce]; rfl)
 
@@ -144,7 +144,7 @@ theorem corr_jump (hR : R I env code p st f) (hsat : Sat I st.path) (hl : f.stac
   · rename_i hv
     rw [if_pos hv] at hstep
     obtain ⟨hR1, f2, hstep2, hR2⟩ := corr_land (w := w) hR hr hlen hv
-    exact Or.inl ⟨_, f2, rfl, hsat, rfl, (CReach.single hstep).tail hstep2, hR2⟩
+    exact Corr.cont0 hsat rfl ((CReach.single hstep).tail hstep2) hR2
   · rename_i hv
     rw [if_neg hv] at hstep
     exact Corr.halt rfl hstep
@@ -182,7 +182,7 @@ theorem corr_jumpi_dispatch (hs : SimpSound s) (hR : R I env code p st f) (hsat 
       R I env code p { ({ st with stack := rest } : SState) with pc := st.pc + 1 } f1 := by
     intro h0
     rw [if_pos h0] at hstep
-    exact ⟨_, hstep, hR.next' rfl rfl rfl rfl rfl rfl rfl rfl rfl (by simp only [hR.pc]) hr⟩
+    exact ⟨_, hstep, hR.next' sc! rfl rfl rfl rfl rfl (by simp only [hR.pc]) hr⟩
   have htake : c0 ≠ 0 → (Evm.validJumpdests code).contains target = true →
       ∃ f1 f2, Evm.step p w f = .next w f1 ∧
         R I env code p { ({ st with stack := rest } : SState) with pc := target } f1 ∧
@@ -215,13 +215,13 @@ theorem corr_jumpi_dispatch (hs : SimpSound s) (hR : R I env code p st f) (hsat 
     split
     · rename_i hv
       obtain ⟨f1, f2, hs1, _, hs2, hR2⟩ := htake h0 hv
-      exact Or.inl ⟨_, f2, rfl, hsat, rfl, (CReach.single hs1).tail hs2, hR2⟩
+      exact Corr.cont0 hsat rfl ((CReach.single hs1).tail hs2) hR2
     · rename_i hv
       exact Corr.halt rfl (hbad h0 hv)
   · -- symbolic condition
     simp only
     simp only [BRep.val] at hv0
-    refine Or.inr (Or.inr (Or.inr ⟨_, target, c, rfl, wf, rfl, rfl, ?_, ?_, ?_⟩))
+    refine Or.inr (Or.inr (Or.inr ⟨_, target, c, rfl, wf, rfl, rfl, rfl, rfl, ?_, ?_, ?_⟩))
     · intro hc hv
       have h0 : c0 ≠ 0 := by
         intro h; rw [h, hc] at hv0; cases hv0
@@ -275,7 +275,8 @@ theorem conc_short (hR : R I env code p st f) {n : Nat} (h : st.stack.length < n
 /-- **step_corr.** For every program, every symbolic state and every concrete frame related to it (stack within the
     EVM limit), the result of the symbolic dispatch step corresponds to the concrete step(s). -/
 theorem step_corr (hs : SimpSound s) (hI : I.Std) (hR : R I env code p st f) (hsat : Sat I st.path)
-    (hl : f.stack.length ≤ 1024) (hmem : cfg.maxMem + 32 ≤ p.memLimit) (hcode : ∀ b ∈ code, b < 256) :
+    (hl : f.stack.length ≤ 1024) (hmem : cfg.maxMem + 32 ≤ p.memLimit) (hcode : ∀ b ∈ code, b < 256)
+    {w0 : Evm.World} (hW : WRel I w0 w f.this st.storage st.transient) :
     Corr I env code p w s o cfg st f (step s o cfg env code st) := by
   have hl' : ¬ f.stack.length > 1024 := by omega
   unfold step
@@ -309,7 +310,7 @@ theorem step_corr (hs : SimpSound s) (hI : I.Std) (hR : R I env code p st f) (hs
     rw [if_neg hfe]
     by_cases h5b : op = 0x5b
     · rw [if_pos h5b]; subst h5b
-      refine Corr.cont1 hsat rfl rfl (evm_jumpdest (hR.hop hop) hl') (hR.next' rfl rfl rfl rfl rfl rfl rfl rfl rfl ?_ hR.stack)
+      refine Corr.cont1 hsat rfl rfl (evm_jumpdest (hR.hop hop) hl') (hR.next' sc! rfl rfl rfl rfl rfl ?_ hR.stack)
       simp only [hR.pc]
     rw [if_neg h5b]
     by_cases h50 : op = 0x50
@@ -330,7 +331,7 @@ theorem step_corr (hs : SimpSound s) (hI : I.Std) (hR : R I env code p st f) (hs
       have hrd : Evm.readBytes f.code (f.pc + 1) (Evm.pushLen op) =
           Evm.readBytes code (st.pc + 1) (Evm.pushLen op) := by rw [hR.code, hR.pc]
       rw [hrd] at hstep
-      refine Corr.cont1 hsat rfl rfl hstep (hR.next' rfl rfl rfl rfl rfl rfl rfl rfl rfl ?_ ?_)
+      refine Corr.cont1 hsat rfl rfl hstep (hR.next' sc! rfl rfl rfl rfl rfl ?_ ?_)
       · simp only [hR.pc]
       · exact StackRel.cons (wordRel_con (push_value_lt _ _ _ hlen)) hR.stack
     rw [if_neg hpush]
@@ -565,6 +566,72 @@ theorem step_corr (hs : SimpSound s) (hI : I.Std) (hR : R I env code p st f) (hs
               · exact Corr.stuck rfl
         · exact Corr.stuck rfl
     rw [if_neg h39]
+    by_cases h3d : op = 0x3d
+    · rw [if_pos h3d]; subst h3d
+      refine corr_push hR hsat (wordRel_con (Nat.mod_lt _ (by decide))) ?_
+      rw [evm_returndatasize (hR.hop hop) hl', push_eq, retdata_length hR]
+    rw [if_neg h3d]
+    by_cases h3e : op = 0x3e
+    · rw [if_pos h3e]; subst h3e
+      split
+      · rename_i hst
+        exact Corr.halt rfl (evm_returndatacopy_short (hR.hop hop) hl' (conc_short hR (by rw [hst]; simp)))
+      · rename_i lv r1 hst
+        split
+        · rename_i s1 loc h1
+          split
+          · exact Corr.halt rfl (evm_returndatacopy_short (hR.hop hop) hl' (conc_short hR (by rw [hst]; simp)))
+          · rename_i ov r2
+            split
+            · rename_i s2 off h2
+              split
+              · exact Corr.halt rfl (evm_returndatacopy_short (hR.hop hop) hl'
+                  (conc_short hR (by rw [hst]; simp)))
+              · rename_i sv rest
+                split
+                · rename_i s3 size h3
+                  exact corr_returndatacopy hs hR hsat hl hmem hop hst h1 h2 h3
+                · exact Corr.stuck rfl
+            · exact Corr.stuck rfl
+        · exact Corr.stuck rfl
+    rw [if_neg h3e]
+    by_cases hld : op = 0x54 ∨ op = 0x5c
+    · rw [if_pos hld]
+      split
+      · rename_i hst
+        refine Corr.halt rfl ?_
+        have hnil : f.stack = [] := (hst ▸ hR.stack).nil_inv
+        rcases hld with rfl | rfl
+        · rw [evm_sload (hR.hop hop) hl']; simp only [Evm.op1, hnil]
+        · rw [evm_tload (hR.hop hop) hl']; simp only [Evm.op1, hnil]
+      · rename_i kv rest hst
+        split
+        · rename_i sz slot ht
+          split
+          · exact corr_load hs hR hsat hl hW hop hld hst ht
+          · exact Corr.stuck rfl
+        · exact Corr.stuck rfl
+    rw [if_neg hld]
+    by_cases hso : op = 0x55 ∨ op = 0x5d
+    · rw [if_pos hso]
+      split
+      · rename_i kv v rest hst
+        split
+        · rename_i hstatic
+          exact Corr.halt rfl (conc_store_static hR hl hop hso hst hstatic)
+        · rename_i hstatic
+          split
+          · rename_i sz slot ht
+            split
+            · split
+              · rename_i szv r hv
+                exact corr_store hs hR hsat hl hop hso hst hstatic ht hv
+              · exact Corr.stuck rfl
+            · exact Corr.stuck rfl
+          · exact Corr.stuck rfl
+      · rename_i hno
+        exact Corr.halt rfl (evm_store_short (hR.hop hop) hso hl' (conc_short hR (short_of_not_cons2 hno)))
+    rw [if_neg hso]
     exact Corr.stuck rfl
 
 end
